@@ -51,7 +51,8 @@ def runMonitor (pid : String) (c : MonCtx) (ls : List Label) : Option (Option Na
       ff (monC03 c) ls] ++ wfAll c ls))   -- "terminates gracefully exactly as after stop"
   | "C06" => some (firstSome ([ff (monC06 c) ls, ff (monC06t c) ls,
       -- "join yields None, its timers stop firing"; nothing is handled after a failed start
-      ff (monC17 c) ls, ff (monC10 c) ls, ff (monC03 c) ls] ++ wfAll c ls))
+      ff (monC17 c) ls, ff (monC10 c) ls, ff (monC03 c) ls,
+      ff (monC14 c) ls] ++ wfAll c ls))    -- "the service registry treats it as not running": what the queries say
   | "C07" => some (firstSome ([ff (monC07 c) ls, ff (monC07o c) ls,
       -- "behaves like a freshly started actor"; "a started error during restart terminates the actor as failed"
       ff (monC03 c) ls, ff (monC06 c) ls] ++ wfAll c ls))
